@@ -64,6 +64,7 @@ type propMeta struct {
 	EnumThorough int      `json:"enum_thorough"`
 	Chunk        int      `json:"chunk"`
 	FaultKinds   []string `json:"fault_kinds"`
+	RaceTest     string   `json:"race_test"`
 }
 
 type finding struct {
@@ -393,6 +394,58 @@ func main() {
 		}
 	}
 
+	// auxiliary real-parallel stage under the race detector (runtime monitoring, not simulation)
+	raceInfo := map[string]interface{}{"ran": false}
+	if meta.RaceTest != "" && os.Getenv("VERIF_NO_RACE_STAGE") == "" {
+		rstart := time.Now()
+		rbin := filepath.Join(work, "race.test")
+		rargs := []string{"test", "-race", "-c", "-o", rbin}
+		if repo != "/repo" {
+			rargs = append(rargs, "-modfile="+filepath.Join(work, "alt.mod"))
+		}
+		rargs = append(rargs, "./race")
+		if o, err := run(filepath.Join(verif, "sim"), nil, 30*time.Minute, goBin, rargs...); err != nil {
+			infra("building the -race stage failed: %v\n%s", err, o)
+		}
+		rounds := 1
+		if *tier == "thorough" {
+			rounds = 6
+		}
+		reports := 0
+		for r := 0; r < rounds; r++ {
+			rseed := seed + uint64(r)*7919
+			o, _ := run(verif, []string{"VERIF_RACE=1", fmt.Sprintf("VERIF_SEED=%d", rseed)}, 20*time.Minute, rbin, "-test.run", "^"+meta.RaceTest+"$", "-test.timeout", "20m")
+			for _, blk := range strings.Split(o, "==================") {
+				if !strings.Contains(blk, "WARNING: DATA RACE") || !strings.Contains(blk, "github.com/netflix/rend/") {
+					continue
+				}
+				reports++
+				where := ""
+				for _, l := range strings.Split(blk, "\n") {
+					l = strings.TrimSpace(l)
+					if strings.HasPrefix(l, "github.com/netflix/rend/") {
+						if k := strings.LastIndex(l, "("); k > 0 {
+							l = l[:k]
+						}
+						where = l
+						break
+					}
+				}
+				rp := filepath.Join(replayDir, fmt.Sprintf("%s-%s-%d-race-%d.json", prop, *tier, rseed, reports))
+				rf := map[string]interface{}{"property": prop, "kind": "race", "stage": "auxiliary real-parallel -race stage (runtime monitoring, not simulation)", "seed": rseed,
+					"report": blk, "replay_cmd": fmt.Sprintf("VERIF_RACE=1 VERIF_SEED=%d .work/race.test -test.run '^%s$'  (re-running reproduces a race with high, not absolute, certainty)", rseed, meta.RaceTest)}
+				js, _ := json.MarshalIndent(rf, "", " ")
+				os.WriteFile(rp, js, 0o644)
+				found = append(found, verdict{class: "race:" + where, msg: "the race detector reports a data race in " + where + " (auxiliary -race stage, seed " + fmt.Sprint(rseed) + ")", replay: rp})
+			}
+			if strings.Contains(o, "functional problem in the race stage") {
+				fmt.Fprintln(os.Stderr, "NOTE: the -race stage's clients saw a functional problem (not a race):", lastLines(o, 3))
+			}
+		}
+		raceInfo = map[string]interface{}{"ran": true, "test": meta.RaceTest, "rounds": rounds, "race_reports_in_repository_code": reports, "wall_s": time.Since(rstart).Seconds(),
+			"label": "auxiliary evidence outside the technique family: real goroutines, real unix sockets, no kernel, built with -race"}
+	}
+
 	// merge
 	agg := workerOut{Probes: map[string]int{}, Fired: map[string]int{}}
 	plans, scheds, states := map[uint64]struct{}{}, map[uint64]struct{}{}, map[uint64]struct{}{}
@@ -431,7 +484,7 @@ func main() {
 	// confirm violations by strict replay in a fresh process
 	confirmed := found[:0]
 	for _, v := range found {
-		if strings.HasPrefix(v.class, "crash:") || strings.HasPrefix(v.class, "spin:") {
+		if strings.HasPrefix(v.class, "crash:") || strings.HasPrefix(v.class, "spin:") || strings.HasPrefix(v.class, "race:") {
 			confirmed = append(confirmed, v)
 			continue
 		}
@@ -486,30 +539,31 @@ func main() {
 		runsPerHour = float64(agg.Runs) / wall * 3600
 	}
 	cov := map[string]interface{}{
-		"evaluations":             agg.Runs,
-		"distinct_nontrivial":     len(plans),
-		"rule":                    meta.Rule,
-		"samples":                 samples,
-		"exhaustive":              false,
-		"exhaustive_subspace":     exhaustive,
-		"seeds":                   fmt.Sprintf("base seed %d; run i uses SplitMix(base, property, i), i in [0,%d)", seed, total),
-		"enumerated_cases":        enumN,
-		"runs_per_hour":           int64(runsPerHour),
-		"kernel_steps":            agg.KSteps,
-		"simulated_time_s":        float64(agg.SimMs) / 1000,
-		"schedule_decisions":      agg.Decisions,
-		"distinct_schedules":      len(scheds),
+		"evaluations":              agg.Runs,
+		"distinct_nontrivial":      len(plans),
+		"rule":                     meta.Rule,
+		"samples":                  samples,
+		"exhaustive":               false,
+		"exhaustive_subspace":      exhaustive,
+		"seeds":                    fmt.Sprintf("base seed %d; run i uses SplitMix(base, property, i), i in [0,%d)", seed, total),
+		"enumerated_cases":         enumN,
+		"runs_per_hour":            int64(runsPerHour),
+		"kernel_steps":             agg.KSteps,
+		"simulated_time_s":         float64(agg.SimMs) / 1000,
+		"schedule_decisions":       agg.Decisions,
+		"distinct_schedules":       len(scheds),
 		"distinct_abstract_states": len(states),
-		"state_measure":           "hash of (deployment, reference-map contents summary, L1 key set, command kind) at quiescent points; distinct schedules = distinct (plan, decision sequence) hashes; both capped per worker",
-		"faults_fired":            agg.Fired,
-		"fault_kinds_available":   meta.FaultKinds,
-		"reach_probes":            agg.Probes,
-		"real_components":         meta.Real,
-		"stub_components":         meta.Stub,
-		"worker_processes":        len(jobs),
-		"build_s":                 buildS,
-		"known_findings_hit":      len(knownHit),
-		"infra_messages":          len(infraMsgs),
+		"state_measure":            "hash of (deployment, reference-map contents summary, L1 key set, command kind) at quiescent points; distinct schedules = distinct (plan, decision sequence) hashes; both capped per worker",
+		"faults_fired":             agg.Fired,
+		"fault_kinds_available":    meta.FaultKinds,
+		"reach_probes":             agg.Probes,
+		"real_components":          meta.Real,
+		"stub_components":          meta.Stub,
+		"worker_processes":         len(jobs),
+		"build_s":                  buildS,
+		"known_findings_hit":       len(knownHit),
+		"race_stage":               raceInfo,
+		"infra_messages":           len(infraMsgs),
 	}
 	ev := map[string]interface{}{
 		"property_id": prop, "tier": *tier, "seed": int64(seed), "level": meta.Level, "coverage": cov,
